@@ -208,7 +208,7 @@ def body_gradients(case, ctx):
             if floor > 1e-3 * max(np.max(np.abs(grad)), 1e-300):
                 ctx.inconclusive["stencil-roundoff-too-large"] += 1
                 continue
-            tol = tol + floor
+            tol = tol + floor + 1e-6 * float(np.max(np.abs(grad)))   # a component is judged at the scale of the whole gradient
             ctx.ratio(f"gradient:{case['acq']}", err, tol)
             if not np.isfinite(err) or err > tol:
                 raise Violation(f"gradient:{case['acq']}:{branch}", f"d={d}, z={z:.4g}: d opt_func/dx{i} = {grad[i]!r}; stencil differs by {err:.3g} (tol {tol:.3g})")
